@@ -658,6 +658,9 @@ func classifyLoadedUses(ld *ssa.UnOp) []FieldAccess {
 			} else {
 				out = append(out, FieldAccess{Kind: "read", Pos: u.Pos(), Why: "element load", Points: pts})
 			}
+		case *ssa.Return, *ssa.Store, *ssa.Phi, *ssa.MakeInterface, *ssa.BinOp, *ssa.If, *ssa.Convert, *ssa.ChangeType:
+			// the loaded header / scalar is only copied or compared: the guard matters at the load
+			out = append(out, FieldAccess{Kind: "read", Pos: r.Pos(), Why: fmt.Sprintf("used by %T", r)})
 		default:
 			out = append(out, FieldAccess{Kind: "read", Pos: r.Pos(), Why: fmt.Sprintf("used by %T", r), Points: []ssa.Instruction{r}})
 		}
